@@ -165,6 +165,19 @@ fn sub_layer_scenarios(ctx: &Ctx, out: &mut Outcome, n: u64, secs: f64) {
                 _ => Op::Fill(rect_path(0., 0., w as f32, h as f32), SrcSpec::Solid(premul_pixel(rng)), o(random_mode(rng), random_alpha(rng))),
             }
         };
+        // the same with sources whose colour depends on where the pixel is (a gradient or image shaded with
+        // coordinates relative to the wrong origin shows)
+        let whole_shaded = |rng: &mut Rng, w: i32, h: i32| -> Op {
+            let src = random_source(rng, w, h, 0);
+            match rng.below(3) {
+                0 => Op::FillRect(0., 0., w as f32, h as f32, src, o(BlendMode::Src, 1.)),
+                1 => Op::FillRect(rng.int(0, 2) as f32, rng.int(0, 2) as f32, w as f32, h as f32, src, o(random_mode(rng), 1.)),
+                _ => {
+                    let img = Img { w: w.min(24), h: h.min(24), data: random_image_data(rng, w.min(24), h.min(24)) };
+                    Op::DrawImageAt(0., 0., img, o(BlendMode::Src, 1.))
+                }
+            }
+        };
         if large {
             st.add("scenarios_on_surfaces_over_65536_pixels", 1);
             if rng.chance(0.4) {
@@ -214,8 +227,15 @@ fn sub_layer_scenarios(ctx: &Ctx, out: &mut Outcome, n: u64, secs: f64) {
             // clip B: the same size elsewhere (mostly), or any other rectangle
             let (bx, by) = if rng.chance(0.8) { (rng.int(0, (w - aw) as i64) as i32, rng.int(0, (h - ah) as i64) as i32) } else { (ax + rng.int(-3, 3) as i32, ay + rng.int(-3, 3) as i32) };
             let (bw, bh) = if rng.chance(0.8) { (aw, ah) } else { (rng.int(1, w as i64) as i32, rng.int(1, h as i64) as i32) };
-            ops.push(Op::PushClipRect(bx, by, bx + bw, by + bh));
-            ops.push(whole(&mut rng, w, h));
+            // sometimes without B: no clip at all while the layer is open (the unclipped fast paths, on a
+            // buffer that is not the surface and does not start at the origin)
+            let has_b = !(rng.chance(0.3) && !outer_clip);
+            if has_b {
+                ops.push(Op::PushClipRect(bx, by, bx + bw, by + bh));
+            } else {
+                ops.push(Op::SetTransform(Transform::identity()));
+            }
+            ops.push(if rng.chance(0.4) { whole_shaded(&mut rng, w, h) } else { whole(&mut rng, w, h) });
             if rng.chance(0.5) {
                 let g = gen_scene(&mut rng, &prof);
                 if g.w <= w && g.h <= h {
@@ -226,7 +246,10 @@ fn sub_layer_scenarios(ctx: &Ctx, out: &mut Outcome, n: u64, secs: f64) {
                 ops.push(whole(&mut rng, w, h));
             }
             // pops in either order
-            if rng.chance(0.5) {
+            if !has_b {
+                if nested { ops.push(Op::PopLayer); }
+                ops.push(Op::PopLayer);
+            } else if rng.chance(0.5) {
                 ops.push(Op::PopClip);
                 if nested { ops.push(Op::PopLayer); }
                 ops.push(Op::PopLayer);
@@ -571,6 +594,56 @@ fn sub_formula_validity(ctx: &Ctx, out: &mut Outcome, n: u64) {
     });
 }
 
+/// copy_surface / blend_surface / blend_surface_with_alpha between surfaces of valid pixels: every alpha
+/// byte, every mode; the destination stays valid
+fn sub_surface_blits_validity(ctx: &Ctx, out: &mut Outcome, n: u64) {
+    run_cases(ctx, out, SubSpec { name: "surface_blits_keep_pixels_valid", cases: n, exhaustive: false, max_secs: 120. }, |i, want, st| {
+        let mut rng = ctx.rng("surface_blits_keep_pixels_valid", i);
+        let (w, h) = (rng.int(1, 10) as i32, rng.int(1, 6) as i32);
+        let n = (w * h) as usize;
+        // opaque, translucent and transparent pixels on both sides
+        let px = |rng: &mut Rng| match rng.below(4) { 0 => premul_pixel(rng) | 0xff000000, 1 => 0, _ => premul_pixel(rng) };
+        let fix = |p: u32| { let c = ch(p); let a = c[0]; pack(a as u32, c[1].min(a) as u32, c[2].min(a) as u32, c[3].min(a) as u32) };
+        let src_px: Vec<u32> = (0..n).map(|_| fix(px(&mut rng))).collect();
+        let dst_px: Vec<u32> = (0..n).map(|_| fix(px(&mut rng))).collect();
+        let src = DrawTarget::from_vec(w, h, src_px.clone());
+        let mut dst = DrawTarget::from_vec(w, h, dst_px.clone());
+        let r = IntRect::new(IntPoint::new(0, 0), IntPoint::new(w, h));
+        let at = IntPoint::new(rng.int(-1, 1) as i32, rng.int(-1, 1) as i32);
+        // every alpha byte in turn, and values outside [0,1]
+        let byte = i % 260;
+        let alpha = if byte < 256 { (byte as f32) / 255. } else { [1.5f32, -0.5, f32::INFINITY, 255. / 256.][(byte - 256) as usize] };
+        let mode = random_mode(&mut rng);
+        let which = i / 260 % 3;
+        match which {
+            0 => dst.blend_surface_with_alpha(&src, r, at, alpha),
+            1 => dst.blend_surface(&src, r, at, mode),
+            _ => dst.copy_surface(&src, r, at),
+        }
+        let mut co = CaseOut::default();
+        co.hash = crate::prng::hash_str(&format!("{:?}{:?}{}{}{:?}", src_px, dst_px, byte, which, mode));
+        co.nontrivial = true;
+        st.add("surface_blit_px_checked", n as u64);
+        if let Some(k) = dst.get_data().iter().position(|p| !valid_premul(*p)) {
+            let known_color = which == 1 && mode == BlendMode::Color && ctx.known.active("C18", "sw-composite-color-blend-invalid");
+            if known_color {
+                co.known.push(("C18:sw-composite-color-blend-invalid".to_string(), format!("blend_surface with Color gives {}", hex(dst.get_data()[k]))));
+            } else {
+                co.viol("C18", format!("{} leaves pixel #{} = {} (a colour channel exceeds alpha); it held {} and the source pixel landing there is valid too", ["blend_surface_with_alpha", "blend_surface", "copy_surface"][which as usize], k, hex(dst.get_data()[k]), hex(dst_px[k])));
+            }
+        }
+        if want || !co.violations.is_empty() {
+            let mut d = J::obj();
+            d.set("surfaces", J::s(&format!("{}x{}", w, h)));
+            d.set("source_pixels", pixels_json(&src_px));
+            d.set("destination_pixels", pixels_json(&dst_px));
+            d.set("call", J::s(&format!("{} at ({},{}) alpha {} mode {}", ["blend_surface_with_alpha", "blend_surface", "copy_surface"][which as usize], at.x, at.y, alpha, mode_name(mode))));
+            co.desc = Some(d);
+        }
+        co
+    });
+}
+
 pub fn run(ctx: &Ctx) -> Outcome {
     let q = ctx.quick();
     let secs = if q { 60. } else { 600. };
@@ -586,6 +659,7 @@ pub fn run(ctx: &Ctx) -> Outcome {
             p.ops = (2, 8);
             sub_general(ctx, &mut out, "scenes_partial_shapes", p, ctx.n(100_000, 1_500_000), secs);
             sub_mask_lab(ctx, &mut out, ctx.n(12_000, 150_000), secs / 2.);
+            sub_layer_scenarios(ctx, &mut out, ctx.n(6_000, 100_000), secs / 2.);
         }
         "C03" => {
             out = Outcome::new(&format!(
@@ -628,6 +702,7 @@ pub fn run(ctx: &Ctx) -> Outcome {
             sub_directed(ctx, &mut out);
             sub_color_conversions(ctx, &mut out);
             sub_formula_validity(ctx, &mut out, ctx.n(1_000_000, 20_000_000));
+            sub_surface_blits_validity(ctx, &mut out, ctx.n(40_000, 800_000));
             sub_opacity_lab(ctx, &mut out);
             sub_mask_lab(ctx, &mut out, ctx.n(10_000, 200_000), secs / 2.);
             let p = SceneProfile { max_size: 12, clips: 0.6, layers: 0.8, transforms: 0.3, solid_weight: 4, ops: (3, 10) };
